@@ -157,6 +157,14 @@ def _mk_identity(kind, Rc, Rx):
                 ("M", "b", "Sigma", "Lambda", "ln_det_Sigma"))
         w.equal("conditional_entropy", s.conditional_entropy(p_x), g.conditional_entropy(p_x))
         w.equal("mutual_information", s.mutual_information(p_x), g.mutual_information(p_x))
+        if Rx == 1:
+            # in-place update of the noise covariance: special and general class stay equal, and what they return afterwards too
+            new = w.diag_spd("n", SP.batch(Rc), "Dy") if "diag" in kind else w.spd("n", SP.batch(Rc), "Dy")
+            s.update_Sigma(new["S"])                                        # REAL (in place)
+            g.update_Sigma(new["S"])                                        # REAL (in place)
+            _fields(w, "update_Sigma", s, g, ("Sigma", "Lambda", "ln_det_Sigma"))
+            _fields(w, "update_Sigma/condition_on_x", s.condition_on_x(x), g.condition_on_x(x), ("Sigma", "mu", "Lambda", "ln_det_Sigma", "nu", "ln_beta"))
+            return
         if Rc == 1:
             gq = w.block_gaussian("q", SP.batch(Rx), ["Dy", "Dy"])
             q = SP.mods()["pdf"].GaussianPDF(Sigma=gq["S"], mu=gq["mu"], Lambda=gq["L"], ln_det_Sigma=gq["ld"])
